@@ -2,7 +2,8 @@
 import re
 
 from .. import lib, mir
-from ..mir import render
+from .. import lib_sec as S
+from ..mir import render, strip_generics
 
 EXPLANATION = ("The transition relations of DialerSelectFuture::poll, ListenerSelectFuture::poll and Negotiated::poll are extracted from "
                "their `match mem::replace(state, Poison)` loops (arm -> successor states on continue, state restored before every "
@@ -10,8 +11,11 @@ EXPLANATION = ("The transition relations of DialerSelectFuture::poll, ListenerSe
                "variant rebuilt from the arm's own fields (nothing forgotten while waiting); state carried to the next arm keeps the "
                "selected protocol. Guards: the dialer completes only on a confirmation equal to its proposal (or lazily only for its last "
                "proposal under V1Lazy); the listener confirms only a name found in its own list and returns Ok only after a flushed "
-               "confirmation; NotAvailable advances to the next proposal.")
-ASSUMPTIONS = ["byte-split / readiness schedules are not executed", "data transparency of Negotiated's AsyncRead/AsyncWrite halves after completion is not decided",
+               "confirmation; NotAvailable advances to the next proposal. Transparency of early application writes: every AsyncWrite "
+               "method of LengthDelimitedReader (and the Sink::poll_flush/poll_close of LengthDelimited it delegates to) touches the "
+               "underlying stream only on the Ready(Ok) edge of poll_write_buffer, so buffered negotiation frames can never be overtaken. "
+               "Values are followed to their origin (arm fields, received message, captured variables), not matched by variable names.")
+ASSUMPTIONS = ["byte-split / readiness schedules are not executed", "data transparency of Negotiated's AsyncRead half after completion is not decided",
                "MessageIO / LengthDelimited framing is C15"]
 MS = "multistream_select"
 
@@ -30,6 +34,19 @@ LISTENER = {
     "Flush": {"next": {"RecvMessage"}, "exits": {"Pending", "Ready(Err)", "Ready(Ok)"}},
     "Done": {"next": set(), "exits": {"panic"}},
 }
+
+
+def store_fields(body, site):
+    """field -> expression of a `*state = State::V{..}` store, with the arm's pattern bindings (`io`, `protocol`, .. whatever
+    they are called) replaced by what they were bound to (`<replaced state>@Arm.field`)."""
+    e = body.rvalue_expr(site.stmt["r"])
+    return {f: S.expand(body, x) for f, x in e[4]} if e[0] == "agg" else {}
+
+
+def arm_field(e, arm, field):
+    """e is the arm's own field: `<mem::replace(state, Poison)>@arm.field` (through view conversions)"""
+    e = S.peel(e)
+    return e[0] == "field" and e[2] == field and e[1][0] == "downcast" and e[1][2] == arm and S.has_call(e[1][1], r"mem::replace$")
 
 
 def check_fsm(ctx, name, body, rel, table, keep_fields):
@@ -52,25 +69,64 @@ def check_fsm(ctx, name, body, rel, table, keep_fields):
         for v, fields, site in rec["pending"]:
             ok = v == arm
             detail = []
-            for f, val in fields.items():
-                good = val == f or val.endswith("@%s.%s" % (arm, f))
-                if f == "io":
-                    good = val == "io"
-                if not good:
+            for f, val in store_fields(body, site).items():
+                if not arm_field(val, arm, f):
                     ok = False
-                    detail.append("%s: %s" % (f, val[:80]))
+                    detail.append("%s: %s" % (f, render(val)[:80]))
             ctx.ob("fsm", "%s/%s: Pending restores the same state with the arm's own fields" % (name, arm), ok, site.loc(),
                    "restored State::%s{%s}%s" % (v, ", ".join(fields), (" — field(s) not preserved: " + "; ".join(detail)) if detail else ""))
         # fields carried over to the successor
         for v, fields, site in rec["next"]:
+            sf = store_fields(body, site)
             for f in keep_fields.get((arm, v), ()):
-                val = fields.get(f, "")
-                ctx.ob("fsm", "%s/%s->%s keeps %s" % (name, arm, v, f), val.endswith("@%s.%s" % (arm, f)) or val == f, site.loc(), "%s: %s" % (f, val[:100]))
+                ctx.ob("fsm", "%s/%s->%s keeps %s" % (name, arm, v, f), f in sf and arm_field(sf[f], arm, f), site.loc(), "%s: %s" % (f, render(sf.get(f, ("unknown", "missing")))[:100]))
+
+
+def ready_results(body, kind):
+    """Sites `_0 = Poll::Ready(Ok(..))` / `Poll::Ready(Err(..))` of a poll fn."""
+    out = []
+    for s in S.ret_sites(body):
+        e = body.site_expr(s)
+        if e[0] == "agg" and e[3] == "Ready":
+            inner = dict(e[4]).get("0")
+            if inner and inner[0] == "agg" and inner[3] == kind:
+                out.append((s, inner))
+    return out
+
+
+def write_through(ctx):
+    """Application bytes written before / around the end of the negotiation never overtake buffered negotiation frames."""
+    prog = ctx.prog
+    RAW = r"^futures::(io::)?AsyncWrite::poll_(write|write_vectored|flush|close)$"
+    meths = prog.find(MS, r"<length_delimited::LengthDelimitedReader as futures::AsyncWrite>::poll_(write|write_vectored|flush|close)$")
+    ctx.floor("transparent", "AsyncWrite methods of LengthDelimitedReader", meths, 4)
+
+    def check_body(b, label):
+        ctx.use(b)
+        raw = [s for s in b.call_sites() if re.search(RAW, strip_generics(b.call_name(s.term)))]
+        pwb = b.call_sites(r"length_delimited::LengthDelimited::poll_write_buffer$")
+        good = set()
+        for s in pwb:
+            good |= S.call_outcome_edges(b, s)[0]
+        for s in raw:
+            S.guarded(ctx, "transparent", "%s: the underlying stream is touched only after the frame buffer was written out" % label, s, good,
+                      "poll_write_buffer(..) == Ready(Ok(())) on every path (Pending and Err return)")
+        return raw
+    for b in meths:
+        nm = b.npath.split("::")[-1]
+        raw = check_body(b, "LengthDelimitedReader::" + nm)
+        deleg = []
+        for s in b.call_sites(r"<length_delimited::LengthDelimited as futures::Sink>::poll_(flush|close|ready)$"):
+            h = S.crate_callee(prog, b, s)
+            if h is not None:
+                deleg += check_body(h, "LengthDelimited::" + h.npath.split("::")[-1])
+        ctx.floor("transparent", "%s reaches the underlying stream" % nm, raw + deleg, 1)
 
 
 def check(ctx):
     prog = ctx.prog
-    d = ctx.body(MS, r"DialerSelectFuture as futures::Future>::poll$")
+    d = S.canon_this(S.canon_args(ctx.body(MS, r"DialerSelectFuture as futures::Future>::poll$"), ["self", "cx"]))
+    V = S.view(d)
     rel = lib.fsm_extract(d, r"dialer_select::State$")
     check_fsm(ctx, "dialer", d, rel, DIALER, {("SendProtocol", "FlushProtocol"): ["protocol"], ("FlushProtocol", "AwaitProtocol"): ["protocol"],
                                               ("AwaitProtocol", "AwaitProtocol"): ["protocol"]})
@@ -78,80 +134,102 @@ def check(ctx):
     for arm in ("SendHeader", "AwaitProtocol"):
         for v, fields, site in rel[arm]["next"]:
             if v == "SendProtocol":
-                ctx.ob("dialer", "%s->SendProtocol proposes protocols.next()" % arm, "Try>::branch(std::option::Option::ok_or(<std::iter::Peekable as std::iter::Iterator>::next(" in fields.get("protocol", ""),
-                       site.loc(), fields.get("protocol", "")[:140])
+                x = S.peel(S.norm(S.recv_norm(d)(store_fields(d, site).get("protocol", ("unknown", "")))))
+                ok = (x[0] == "call" and x[1] == "ok" and x[2][0][0] == "call" and re.search(r"Iterator>?::next$", strip_generics(x[2][0][1])) is not None
+                      and S.self_field(x[2][0][2][0], "protocols"))
+                ctx.ob("dialer", "%s->SendProtocol proposes protocols.next()" % arm, ok, site.loc(), render(x)[:140])
     # completion guards
     comp = d.call_sites(r"negotiated::Negotiated::completed$")
     ctx.floor("dialer", "Negotiated::completed", comp, 1)
+    confirmed = S.rel_edges(d, lambda e: S.has(e, lambda x: x[0] == "downcast" and x[2] == "Protocol") and S.has_call(e, r"Stream>::poll_next$|poll_next_unpin$"),
+                            lambda e: arm_field(S.expand(d, e), "AwaitProtocol", "protocol"))["eq"]
     for s in comp:
-        ctx.guarded("dialer", "complete only on confirmation of the proposed protocol", s,
-                    lambda c, r, l: l == "true" and re.search(r"PartialEq.*::eq\(.*as_ref\(.*\), .*as_ref\(.*@AwaitProtocol\.protocol\)\)$", r) is not None or
-                    (l == "true" and "::eq(" in r and "@AwaitProtocol.protocol" in r and "@Protocol.0" in r),
-                    "p.as_ref() == protocol.as_ref()")
+        S.guarded(ctx, "dialer", "complete only on confirmation of the proposed protocol", s, confirmed, "p.as_ref() == protocol.as_ref()")
         ctx.guarded("dialer", "complete only on a Protocol message", s, lambda c, r, l: l == "Protocol" and r.startswith("discr("), "msg is Message::Protocol")
     exp = d.call_sites(r"negotiated::Negotiated::expecting$")
     ctx.floor("dialer", "Negotiated::expecting", exp, 1)
+    _, no_more = S.outcome_edges(d, lambda v: v[0] == "call" and re.search(r"Peekable::peek$", strip_generics(v[1])) is not None)
     for s in exp:
-        ctx.guarded("dialer", "lazy completion only for the last proposal", s,
-                    lambda c, r, l: l == "false" and r.startswith("std::option::Option::is_some(std::iter::Peekable::peek("), "protocols.peek().is_none()")
-        ctx.guarded("dialer", "lazy completion only under V1Lazy", s, lambda c, r, l: l == "V1Lazy" and r == "discr(this.version)", "version == V1Lazy")
-        e = render(d.site_expr(s))
-        ctx.ob("dialer", "lazy stream expects the proposed protocol", re.search(r"Negotiated::expecting\(.*into_reader\(io\), .*@Continue\.0|Negotiated::expecting\(.*, p, ", e) is not None or ", p," in e, s.loc(), e[:200])
+        S.guarded(ctx, "dialer", "lazy completion only for the last proposal", s, no_more, "protocols.peek().is_none()")
+        S.vguarded(ctx, "dialer", "lazy completion only under V1Lazy", s, lambda c, r, l: l == "V1Lazy" and r == "discr(self.version)", "version == V1Lazy", V)
+        a = d.site_expr(s)[2]
+        x = S.norm(S.expand(d, a[1])) if len(a) > 1 else ("unknown", "")
+        ok = x[0] == "call" and x[1] == "ok" and S.has_call(x, r"Protocol as std::convert::TryFrom>::try_from$") and S.has(x, lambda y: arm_field(y, "SendProtocol", "protocol"))
+        ctx.ob("dialer", "lazy stream expects the proposed protocol", ok, s.loc(), render(x)[:200])
     # the Ok results return the arm's protocol
-    for arm in ("SendProtocol", "AwaitProtocol"):
-        for d0 in d.defs[0]:
-            if d0[0] != "stmt":
-                continue
-            r = render(d.rvalue_expr(d0[3]))
-            if r.startswith("std::task::Poll::Ready{0: std::result::Result::Ok") and ("@%s.protocol" % arm) in r:
-                ctx.ob("dialer", "%s: Ok returns the negotiated name" % arm, r.startswith("std::task::Poll::Ready{0: std::result::Result::Ok{0: tuple{0: ") and ("@%s.protocol, 1: " % arm) in r,
-                       mir.Site(d, d0[1], d0[2]).loc(), r[:200])
+    for s, inner in ready_results(d, "Ok"):
+        tup = dict(inner[4]).get("0")
+        first = dict(tup[4]).get("0") if tup and tup[0] == "agg" else None
+        arms = [arm for arm in ("SendProtocol", "AwaitProtocol") if first is not None and arm_field(S.expand(d, first), arm, "protocol")]
+        ctx.ob("dialer", "%s: Ok returns the negotiated name" % (arms[0] if arms else "?"), len(arms) == 1, s.loc(), V(d.site_expr(s))[:200])
     # ---- listener
-    l = ctx.body(MS, r"ListenerSelectFuture as futures::Future>::poll$")
+    l = S.canon_this(S.canon_args(ctx.body(MS, r"ListenerSelectFuture as futures::Future>::poll$"), ["self", "cx"]))
+    VL = S.view(l)
+    rnl = S.recv_norm(l)
     rel = lib.fsm_extract(l, r"listener_select::State$")
     check_fsm(ctx, "listener", l, rel, LISTENER, {("SendMessage", "Flush"): ["protocol"]})
     comp = l.call_sites(r"negotiated::Negotiated::completed$")
     ctx.floor("listener", "Negotiated::completed", comp, 1)
+    flushed = set()
+    for s in l.call_sites(r"Sink>::poll_flush$"):
+        flushed |= S.call_outcome_edges(l, s)[0]
+    selected, _ = S.outcome_edges(l, lambda v: arm_field(v, "Flush", "protocol"))
     for s in comp:
-        ctx.guarded("listener", "Ok only after the confirmation was flushed", s,
-                    lambda c, r, ll: ll == "Ok" and "poll_flush(" in r and r.endswith("@Ready.0)"), "poll_flush == Ready(Ok)")
-        ctx.guarded("listener", "Ok only when a protocol was selected", s, lambda c, r, ll: ll == "Some" and r.endswith("@Flush.protocol)"), "protocol is Some")
+        S.guarded(ctx, "listener", "Ok only after the confirmation was flushed", s, flushed, "poll_flush == Ready(Ok)")
+        S.guarded(ctx, "listener", "Ok only when a protocol was selected", s, selected, "protocol is Some")
     # selection: find_map over own list with equality
     fm = l.call_sites(r"Iterator>::find_map$|Iterator::find_map$")
     ctx.floor("listener", "find_map over protocols", fm, 1)
     for s in fm:
         e = l.site_expr(s)
-        ctx.ob("listener", "searches its own protocol list", "this.protocols" in render(e[2][0]), s.loc(), render(e[2][0])[:160])
-        cl = lib.closure_of(prog, l, e)
+        ctx.ob("listener", "searches its own protocol list", S.has(rnl(e[2][0]), lambda x: S.self_field(x, "protocols")), s.loc(), VL(e[2][0])[:160])
+        cls = [a for a in e[2] if a[0] == "closure"]
+        cl, env = S.closure_env(prog, l, cls[0]) if cls else (None, {})
         somes = cl.agg_sites(r"^std::option::Option$", "Some") if cl else []
         ctx.floor("listener", "find_map closure Some", somes, 1)
+        if cl is None:
+            continue
+
+        def proposal(x):      # the name received from the dialer: payload of the Message::Protocol that was read
+            x = S.subst_upvars(x, env)
+            return S.has(x, lambda y: y[0] == "downcast" and y[2] == "Protocol") and S.has_call(x, r"Stream>::poll_next$|poll_next_unpin$")
+
+        def entry(x, idx=None):        # a component of the list entry (the closure's parameter)
+            x = S.peel(x)
+            return x[0] == "field" and (idx is None or x[2] == idx) and S.peel(x[1])[0] == "arg" and S.peel(x[1])[1] == 2
+        equal = S.rel_edges(cl, proposal, lambda x: entry(x))["eq"]
         for x in somes:
-            ctx.guarded("listener", "a name is selected only if it equals the proposal", x, lambda c, r, ll: ll == "true" and "::eq(" in r and "^p" in r, "&p == proto")
-            ctx.ob("listener", "selected name is the matching entry's name", "clone(" in render(cl.site_expr(x)) and ".0" in render(cl.site_expr(x)), x.loc(), render(cl.site_expr(x))[:120])
+            S.guarded(ctx, "listener", "a name is selected only if it equals the proposal", x, equal, "&p == proto")
+            pay = dict(cl.site_expr(x)[4]).get("0")
+            ctx.ob("listener", "selected name is the matching entry's name", pay is not None and entry(pay), x.loc(), render(cl.site_expr(x))[:120])
     # RecvMessage -> SendMessage: confirmation message iff protocol found
+    msg_locals = set()
     for v, fields, site in rel["RecvMessage"]["next"]:
-        if fields.get("protocol", "").startswith("std::option::Option::None"):
-            ctx.ob("listener", "ls answer carries no selection", "Message::Protocols{" in fields.get("message", ""), site.loc(), fields.get("message", "")[:80])
+        raw = dict(l.rvalue_expr(site.stmt["r"])[4])
+        pr, ms = raw.get("protocol", ("unknown", "")), raw.get("message", ("unknown", ""))
+        if pr[0] == "agg" and pr[3] == "None":
+            ctx.ob("listener", "ls answer carries no selection", ms[0] == "agg" and ms[3] == "Protocols", site.loc(), render(ms)[:80])
         else:
-            ctx.ob("listener", "selection is the find_map result", "find_map(" in fields.get("protocol", ""), site.loc(), fields.get("protocol", "")[:100])
-    lm = [k for k, v in l.names.items() if v == "message"]
+            ctx.ob("listener", "selection is the find_map result", pr[0] == "call" and re.search(r"Iterator>?::find_map$", strip_generics(pr[1])) is not None, site.loc(), render(pr)[:100])
+            if ms[0] == "local":
+                msg_locals.add(ms[1])
     msgs = []
-    for k in lm:
-        for d0 in l.defs.get(k, []):
-            if d0[0] == "stmt":
-                site = mir.Site(l, d0[1], d0[2])
-                r = render(l.site_expr(site))
-                if r.startswith("multistream_select::protocol::Message::Protocol{") or r.startswith("multistream_select::protocol::Message::NotAvailable"):
-                    msgs.append((site, r))
+    for k in sorted(msg_locals):
+        for site, e in S.def_exprs(l, k):
+            if e[0] == "agg" and re.search(r"protocol::Message$", strip_generics(e[2])) and e[3] in ("Protocol", "NotAvailable"):
+                msgs.append((site, e))
     ctx.floor("listener", "confirm / reject message constructions", msgs, 2)
-    for site, r in msgs:
-        if "Message::Protocol{" in r:
-            ctx.guarded("listener", "confirmation only when a protocol was found", site, lambda c, rr, ll: ll == "true" and rr.startswith("std::option::Option::is_some("), "protocol.is_some()")
-            ctx.ob("listener", "confirmation echoes the proposal", "clone(" in r and "@Protocol.0" in r or "clone(p)" in r, site.loc(), r[:120])
+    found, not_found = S.outcome_edges(l, lambda v: v[0] == "call" and re.search(r"Iterator>?::find_map$", strip_generics(v[1])) is not None)
+    for site, e in msgs:
+        if e[3] == "Protocol":
+            S.guarded(ctx, "listener", "confirmation only when a protocol was found", site, found, "protocol.is_some()")
+            pay = S.peel(dict(e[4]).get("0", ("unknown", "")))
+            ok = pay[0] == "field" and pay[1][0] == "downcast" and pay[1][2] == "Protocol" and S.has_call(pay, r"Stream>::poll_next$|poll_next_unpin$")
+            ctx.ob("listener", "confirmation echoes the proposal", ok, site.loc(), VL(e)[:120])
         else:
-            ctx.guarded("listener", "rejection only when none was found", site, lambda c, rr, ll: ll == "false" and rr.startswith("std::option::Option::is_some("), "protocol.is_none()")
+            S.guarded(ctx, "listener", "rejection only when none was found", site, not_found, "protocol.is_none()")
     # ---- Negotiated::poll
-    n = ctx.body(MS, r"negotiated::Negotiated::poll$")
+    n = S.canon_this(S.canon_args(ctx.body(MS, r"negotiated::Negotiated::poll$"), ["self", "cx"]))
     rel = lib.fsm_extract(n, r"negotiated::State$")
     rec = rel.get("Expecting")
     ctx.ob("fsm", "negotiated: Expecting arm", rec is not None, msg=str(sorted(rel)))
@@ -159,16 +237,20 @@ def check(ctx):
         ctx.ob("fsm", "negotiated/Expecting: successor states", {v for v, _, _ in rec["next"]} == {"Expecting"}, msg=str([v for v, _, _ in rec["next"]]))
         ctx.ob("fsm", "negotiated/Expecting: state restored before Pending", not rec["pending_unrestored"], msg="pending restores: %s" % [v for v, _, _ in rec["pending"]])
         for v, fields, site in rec["pending"]:
-            ok = v == "Expecting" and all(val == f or val.endswith("@Expecting." + f) for f, val in fields.items())
+            ok = v == "Expecting" and all(arm_field(val, "Expecting", f) for f, val in store_fields(n, site).items())
             ctx.ob("fsm", "negotiated/Expecting: Pending restores the same state", ok, site.loc(), str(fields)[:200])
         okst = rec.get("on", {}).get("Ready(Ok)", [])
         ctx.ob("fsm", "negotiated/Expecting: Ok only after switching to Completed", [v for v, _, _ in okst] == ["Completed"], msg=str([v for v, _, _ in okst]))
+        agreed = S.rel_edges(n, lambda e: S.has(e, lambda x: x[0] == "downcast" and x[2] == "Protocol") and S.has_call(e, r"Stream>::poll_next$|poll_next_unpin$"),
+                             lambda e: arm_field(S.expand(n, e), "Expecting", "protocol"))["eq"]
         for v, fields, site in okst:
             if site is not None:
-                ctx.guarded("negotiated", "completed only on confirmation of the expected protocol", site,
-                            lambda c, r, ll: ll == "true" and "::eq(" in r and "@Expecting.protocol" in r, "p.as_ref() == protocol.as_ref()")
+                S.guarded(ctx, "negotiated", "completed only on confirmation of the expected protocol", site, agreed, "p.as_ref() == protocol.as_ref()")
         for v, fields, site in rec["next"]:
-            ctx.ob("negotiated", "header consumed once", fields.get("header", "").startswith("std::option::Option::None") and fields.get("protocol", "").endswith("@Expecting.protocol"), site.loc(), str(fields)[:160])
+            sf = store_fields(n, site)
+            h = sf.get("header", ("unknown", ""))
+            ctx.ob("negotiated", "header consumed once", h[0] == "agg" and h[3] == "None" and "protocol" in sf and arm_field(sf["protocol"], "Expecting", "protocol"), site.loc(), str(fields)[:160])
     others = [a for a in rel if a != "Expecting"]
     for a in others:
         ctx.ob("fsm", "negotiated/%s: no progress from other states" % a, rel[a]["exits"] <= {"panic"}, msg=str(sorted(rel[a]["exits"])))
+    write_through(ctx)
